@@ -66,7 +66,7 @@ def even_signatures(adoc):
 def explore(ctx, depth):
     import docrun
     import kernpy as kp
-    cases = docrun.make_cases(ctx, 30 if depth == 'quick' else 300, kern_only=True, max_measures=5 if depth == 'quick' else 7)
+    cases = docrun.make_cases(ctx, 30 if depth == 'quick' else 300, kern_only=True, max_measures=5 if depth == 'quick' else 7, double_bars=True)
     docrun.fill_views(ctx, cases, 'kern', docrun.ALLC, '_v')
     all_exps = []
     for case in cases:
@@ -172,6 +172,43 @@ def explore(ctx, depth):
             if allsingle != alldata:
                 ctx.fail({'text': case.text, 'clause': 'partition'}, 'the single-measure exports do not contain every data line of the full export exactly once',
                          impl=allsingle, expected=alldata)
+
+
+    long_ranges(ctx)
+
+
+def long_ranges(ctx):
+    """a long score (more lines than twice the recursion limit): ranges that start late, in the middle and at the very end"""
+    import gen
+    import kernpy as kp
+    text, rows = gen.long_score(2)
+    nm = sum(1 for r in rows if r[0].startswith('=') and not r[0].startswith('=='))     # measures with notes
+    def data_of(a, b):
+        out = []
+        m = 0
+        for r in rows:
+            if r[0].startswith('='):
+                m += 1
+            elif r[0].startswith('4') and a <= m <= b:
+                out.append('\t'.join(r))
+        return out
+    doc = call(lambda: kp.loads(text)[0])
+    if 'ok' not in doc:
+        ctx.fail({'clause': 'long score', 'text_head': text[:80]}, 'a long well-formed score does not import', impl=doc)
+        return
+    doc = doc['ok']
+    M = len(doc.measure_start_tree_stages)
+    ctx.seen({'clause': 'long score: measure count', 'rows': len(rows)}, True)
+    if M != nm + 1:
+        ctx.fail({'clause': 'long score: measure count', 'rows': len(rows)}, 'number of measures differs from the barline structure of the source', impl=M, expected=nm + 1)
+        return
+    for a, b in ((nm, nm), (nm - 1, nm + 1), (nm // 2, nm // 2 + 1), (1, 2), (nm - 300, nm - 300)):
+        got = call(lambda: kp.dumps(doc, from_measure=a, to_measure=b))
+        ctx.seen({'clause': 'long score: range', 'from_measure': a, 'to_measure': b}, True)
+        data = [l for l in got['ok'].split('\n') if is_data(l)] if 'ok' in got else got
+        if data != data_of(a, b):
+            ctx.fail({'clause': 'long score: data lines of the range', 'rows': len(rows), 'from_measure': a, 'to_measure': b, 'text_head': text[:60]},
+                     'the range export of a long score does not contain exactly the data lines of measures a..b', impl=str(data)[:300], expected=str(data_of(a, b))[:300])
 
 
 def replay(ctx, payload):
